@@ -470,6 +470,7 @@ impl GroupedHashAggregateStream {
             .collect();
 
         let output_ordering = agg.cache.output_ordering();
+        let n_group_cols = group_schema.fields().len();
 
         let spill_sort_exprs =
             group_schema
@@ -487,7 +488,23 @@ impl GroupedHashAggregateStream {
 
                     PhysicalSortExpr::new(Arc::new(output_expr), sort_options)
                 });
-        let Some(spill_ordering) = LexOrdering::new(spill_sort_exprs) else {
+        // After a spill the merged spill stream takes the place of the input of an
+        // ordered aggregation and its order becomes the output order, so it has to
+        // satisfy the declared output ordering: the group columns of that ordering lead
+        // the spill order (in the declared sequence), the remaining group columns follow
+        // (`LexOrdering::new` drops the repeated columns).
+        let ordered_first = output_ordering
+            .into_iter()
+            .flat_map(|o| o.iter().cloned())
+            .take_while(|e| {
+                e.expr
+                    .downcast_ref::<Column>()
+                    .is_some_and(|c| c.index() < n_group_cols)
+            })
+            .collect::<Vec<_>>();
+        let Some(spill_ordering) =
+            LexOrdering::new(ordered_first.into_iter().chain(spill_sort_exprs))
+        else {
             return internal_err!("Spill expression is empty");
         };
 
